@@ -20,7 +20,8 @@ pub enum Behaviour {
     NoReply { rst: bool },
     /// Read the complete request, then write `segments` and close.
     /// `delay_ms`: pause before the first byte and between segments (a slow but live server).
-    Reply { segments: Vec<Vec<u8>>, rst: bool, delay_ms: u64 },
+    /// `gzip_segments`: what is written instead when the request asks for gzip (Accept-Encoding).
+    Reply { segments: Vec<Vec<u8>>, rst: bool, delay_ms: u64, gzip_segments: Option<Vec<Vec<u8>>> },
     /// Read the complete request, write `segments` (possibly none), then go silent while keeping
     /// the connection open until the client gives up (real time: the client's own timeout).
     Stall { segments: Vec<Vec<u8>> },
@@ -42,6 +43,7 @@ pub struct Observed {
     pub requests: Vec<Request>,
     pub bytes_written: usize,
     pub stalled_for_ms: u64,
+    pub gzip_served: bool,
 }
 
 pub struct Endpoint {
@@ -200,7 +202,15 @@ fn handle(mut s: TcpStream, b: &Behaviour, obs: &Arc<Mutex<Observed>>, stop: &Ar
         obs.lock().unwrap().stalled_for_ms = started.elapsed().as_millis() as u64;
         return;
     }
-    if let (Behaviour::Reply { segments, delay_ms, .. }, true) = (b, complete) {
+    if let (Behaviour::Reply { segments, delay_ms, gzip_segments, .. }, true) = (b, complete) {
+        let asks_gzip = parse_request(&raw).headers.iter().any(|(n, v)| n.eq_ignore_ascii_case("accept-encoding") && String::from_utf8_lossy(v).to_ascii_lowercase().contains("gzip"));
+        let segments = match (asks_gzip, gzip_segments) {
+            (true, Some(g)) => {
+                obs.lock().unwrap().gzip_served = true;
+                g
+            }
+            _ => segments,
+        };
         let mut written = 0;
         for (i, seg) in segments.iter().enumerate() {
             if *delay_ms > 0 {
